@@ -20,6 +20,8 @@ if [ $# -eq 0 ]; then
   [ "$rcsum" -ne 0 ] && exit "$rcsum"
   /venv/bin/python "$here/tools/py2v_tsv/main.py" --repo "${BIOM_REPO:-/repo}" --out "$here"; rctsv=$?   # TSV mode (tools/regen_tsv.sh)
   [ "$rctsv" -ne 0 ] && exit "$rctsv"
+  /venv/bin/python "$here/tools/py2v_merge/main.py" --repo "${BIOM_REPO:-/repo}" --out "$here"; rcmerge=$?   # dispatch mode (tools/regen_merge.sh)
+  [ "$rcmerge" -ne 0 ] && exit "$rcmerge"
   [ "$rc1" -ne 0 ] && exit "$rc1"
   [ "$rc2" -ne 0 ] && exit "$rc2"
   exit "$rc3"
